@@ -178,28 +178,21 @@ def rule_phis_and_locals(ctx):
     if f is None:
         ctx.missing(R, "is_phi_statement_for")
     else:
-        ms = [m for m in walk(f["body"]) if m["k"] == "Match"]
-        ok = False
-        det = render(f["body"])[:200]
-        if len(ms) == 1:
-            arms = ms[0]["arms"]
-            a0 = [a for a in arms if "Phi" in render(a["pat"])]
-            if len(a0) == 1:
-                pb = {x["name"]: (x["name"] if x["shorthand"] else render(x["pat"])) for x in a0[0]["pat"]["fields"]} if a0[0]["pat"]["k"] == "PStruct" else {}
-                body = render(strip(a0[0]["body"])).replace(" ", "")
-                v = pb.get("var")
-                ok = v is not None and body in ("(%s==name)" % v, "(name==%s)" % v)
-                det = "phi for `name` iff %s" % body
+        from astlib import truth_paths
+
+        pvf = sgrep.params(f)
+        tp = truth_paths(f)
+        det = str(tp)[:300]
+        nm_ = pvf[0] if pvf else "name"
+        ok = len(tp) == 1 and tp[0][0] == ["(letSubstitution{var,rhe:Phi{..},..}=self)"] and tp[0][1] in ("(var==%s)" % nm_, "(%s==var)" % nm_)
         ctx.check(R, "is_phi_statement_for/full-variable-identity", ok, det + " (the comparison must be on the whole VariableName: name and suffix)", site(SI, f))
     f = find_fn(SI, "is_phi_statement")
     if f is not None:
-        t = render(f["body"]).replace(" ", "")
-        okk = "matches!(self,Substitution{rhe:Phi{..},..})" in t
-        if not okk:
-            # match / if-let forms
-            pats = [a for m in walk(f["body"]) if m["k"] == "Match" for a in m["arms"]] + [{"pat": c["cond"]["pat"], "body": c["then"]} for c in walk(f["body"]) if c["k"] == "If" and c["cond"]["k"] == "Let"]
-            okk = any(render(a["pat"]).replace(" ", "") in ("Substitution{rhe:Phi{..},..}",) and render(strip(a["body"])) == "true" for a in pats)
-        ctx.check(R, "is_phi_statement", okk, t[:120], site(SI, f))
+        from astlib import truth_paths
+
+        tp = truth_paths(f)
+        okk = tp == [(["(letSubstitution{rhe:Phi{..},..}=self)"], "true")]
+        ctx.check(R, "is_phi_statement", okk, str(tp)[:200], site(SI, f))
     f = find_fn(SI, "new_phi_statement")
     if f is not None:
         t = render(f["body"]).replace(" ", "")
@@ -271,7 +264,11 @@ def rule_phis_and_locals(ctx):
                 cs = [fact_str(c).replace(" ", "") for c in (conditions_to(body, a) or [])]
                 ok = ("!!env.is_local(%s)" % nm) in cs or ("env.is_local(%s)" % nm) in cs
                 cur = any(c.startswith("matchenv.get_current_version(%s)=>" % nm) or c.endswith("=env.get_current_version(%s))" % nm) for c in cs)
-                rhs = render(strip(a["r"])).replace(" ", "") == "%s.with_version(version)" % nm
+                # the version written is the one bound by `Some(v) = env.get_current_version(name)` on this path
+                vb = [re.fullmatch(r"\(letSome\((\w+)\)=env\.get_current_version\(%s\)\)" % re.escape(nm), c) for c in cs]
+                vb = [m_.group(1) for m_ in vb if m_] + [re.fullmatch(r"matchenv\.get_current_version\(%s\)=>Some\((\w+)\)" % re.escape(nm), c).group(1) for c in cs if re.fullmatch(r"matchenv\.get_current_version\(%s\)=>Some\((\w+)\)" % re.escape(nm), c)]
+                rt = render(strip(a["r"])).replace(" ", "")
+                rhs = any(rt == "%s.with_version(%s)" % (nm, v_) for v_ in vb) or (not vb and rt == "%s.with_version(version)" % nm)
                 ctx.check(R, "visit_expression/%s/write%d/only-locals-current-version" % (variant, i + 1), ok and cur and rhs, "versioned under %s" % cs, site(SI, a))
 
 
